@@ -119,6 +119,26 @@ type c15Thread struct {
 	cancelled bool
 	unlock    func()
 	everWait  bool
+	gate      *c15GateCtx
+}
+
+// c15GateCtx is a context whose Done method — which locker.Lock calls after it has enqueued
+// itself and released lr.mu, right before it blocks in its select — stops the caller until the
+// harness opens the gate.  It lets the harness hold a caller in the window "counted in n, not
+// yet receiving", which the scheduler otherwise leaves open for nanoseconds only.
+type c15GateCtx struct {
+	context.Context
+	atGate chan struct{}
+	open   chan struct{}
+	once   sync.Once
+}
+
+func (g *c15GateCtx) Done() <-chan struct{} {
+	g.once.Do(func() {
+		close(g.atGate)
+		<-g.open
+	})
+	return g.Context.Done()
 }
 
 type c15Run struct {
@@ -143,9 +163,49 @@ func (r *c15Run) monitor(sig, detail string) {
 
 // startLock launches the Lock call of session t and returns the model action.
 func (r *c15Run) startLock(t, api, id int, predone bool) string {
+	return r.startLockCtx(t, api, id, predone, false)
+}
+
+// startLockGated starts a raw Lock whose caller is held at the gate (see c15GateCtx) and
+// returns once it got there (or the call returned through the fast path).
+func (r *c15Run) startLockGated(t, id int) string {
+	term := r.startLockCtx(t, 0, id, false, true)
+	th := r.ths[t]
+	deadline := time.Now().Add(r.timeout)
+	for i := 0; ; i++ {
+		select {
+		case <-th.gate.atGate:
+			return term
+		default:
+		}
+		if th.status.Load() != c15Calling || time.Now().After(deadline) {
+			return term
+		}
+		if i < 50 {
+			runtime.Gosched()
+		} else {
+			time.Sleep(10 * time.Microsecond)
+		}
+	}
+}
+
+func (r *c15Run) openGates() {
+	for _, th := range r.ths {
+		if th.gate != nil {
+			close(th.gate.open)
+			th.gate = nil
+		}
+	}
+}
+
+func (r *c15Run) startLockCtx(t, api, id int, predone, gated bool) string {
 	th := r.ths[t]
 	ctx, cancel := context.WithCancel(context.Background())
 	th.id, th.api, th.cancel, th.cancelled, th.unlock = id, api, cancel, predone, nil
+	if gated {
+		th.gate = &c15GateCtx{Context: ctx, atGate: make(chan struct{}), open: make(chan struct{})}
+		ctx = th.gate
+	}
 	if predone {
 		cancel()
 	}
@@ -337,18 +397,55 @@ func (r *c15Run) observe() string {
 
 // par performs the given actions concurrently (plain mode), or with lr.mu held while they are
 // issued so that they all contend for the mutex at once (held mode).
-func (r *c15Run) par(acts []func() string, held bool) {
+func (r *c15Run) par(acts []func() string, held bool) { r.parG(nil, acts, held) }
+
+// parG first starts the gated Lock calls (each is held right after it enqueued itself), then
+// performs the other actions concurrently, lets the cancellations among them finish, and only
+// then opens the gates.  For the model it is the same set of concurrent actions.
+func (r *c15Run) parG(gated []func() string, acts []func() string, held bool) {
+	var terms []string
+	for _, g := range gated {
+		terms = append(terms, g())
+	}
+	ts, ok := r.runActs(acts, held)
+	if len(gated) > 0 {
+		if ok {
+			deadline := time.Now().Add(5 * time.Millisecond)
+			for time.Now().Before(deadline) {
+				pending := false
+				for _, th := range r.ths {
+					if th.status.Load() == c15Calling && th.cancelled {
+						pending = true
+					}
+				}
+				if !pending {
+					break
+				}
+				runtime.Gosched()
+			}
+		}
+		r.openGates()
+	}
+	if !ok {
+		return
+	}
+	terms = append(terms, ts...)
+	obs := r.settle()
+	r.em.Step("Par "+coqList(terms), obs)
+}
+
+func (r *c15Run) runActs(acts []func() string, held bool) ([]string, bool) {
 	terms := make([]string, len(acts))
 	if len(acts) == 1 {
 		terms[0] = acts[0]()
-	} else {
+	} else if len(acts) > 1 {
 		var mu *sync.Mutex
 		if held {
 			mu = r.be.Mu()
 			if !verifC15TryLock(mu) {
 				r.fatal = true
 				r.monitor("locker-mutex-stuck", "lr.mu stays held: a critical section does not complete")
-				return
+				return nil, false
 			}
 		}
 		var wg sync.WaitGroup
@@ -383,11 +480,10 @@ func (r *c15Run) par(acts []func() string, held bool) {
 		case <-time.After(3 * r.timeout):
 			r.fatal = true
 			r.monitor("action-did-not-return", "a Lock start, cancel or Unlock did not return")
-			return
+			return nil, false
 		}
 	}
-	obs := r.settle()
-	r.em.Step("Par "+coqList(terms), obs)
+	return terms, true
 }
 
 type c15Act struct {
@@ -431,13 +527,26 @@ func (r *c15Run) pickWith(status int32, id int, pred func(*c15Thread) bool) int 
 	return c[r.rng.Intn(len(c))]
 }
 
+func (r *c15Run) pickIdle() int {
+	var c []int
+	for t := range r.ths {
+		if r.isIdle(t) {
+			c = append(c, t)
+		}
+	}
+	if len(c) == 0 {
+		return -1
+	}
+	return c[r.rng.Intn(len(c))]
+}
+
 func (r *c15Run) isIdle(t int) bool {
 	s := r.ths[t].status.Load()
 	return s == c15Idle || s == c15CtxErr || s == c15MgrErr
 }
 
 // race: cancel a waiter while the holder of the same contract unlocks.
-func (r *c15Run) race(c, u int, held bool) {
+func (r *c15Run) race(c, u int, held bool, newcomer int) {
 	if r.ths[c].status.Load() != c15Calling || r.ths[u].status.Load() != c15Holding {
 		return
 	}
@@ -449,7 +558,13 @@ func (r *c15Run) race(c, u int, held bool) {
 			nwait++
 		}
 	}
-	r.par([]func() string{func() string { return r.doCancel(c) }, func() string { return r.doUnlock(u) }}, held)
+	var gated []func() string
+	if newcomer >= 0 {
+		id := thc.id
+		gated = append(gated, func() string { return r.startLockGated(newcomer, id) })
+		r.em.Count("race:with-gated-newcomer")
+	}
+	r.parG(gated, []func() string{func() string { return r.doCancel(c) }, func() string { return r.doUnlock(u) }}, held)
 	switch thc.status.Load() {
 	case c15Holding:
 		r.em.Count(fmt.Sprintf("race-outcome:cancelled-waiter-got-the-token,waiters=%d", nwait))
@@ -487,6 +602,7 @@ func (r *c15Run) drain() {
 
 // abort stops every goroutine of a failed case as well as it can.
 func (r *c15Run) abort() (stuck bool) {
+	r.openGates()
 	for _, th := range r.ths {
 		if th.cancel != nil {
 			th.cancel()
@@ -574,7 +690,7 @@ func (r *c15Run) unlockStep(t int) {
 }
 
 // directed cases: known dangerous schedules and boundary cases (case ids 0..c15Directed-1)
-const c15Directed = 12
+const c15Directed = 14
 
 func (r *c15Run) directed(id int) {
 	switch id {
@@ -591,21 +707,21 @@ func (r *c15Run) directed(id int) {
 	case 2: // cancel racing with the hand-off token, single waiter
 		r.lockStep(0, 0, 0, false)
 		r.lockStep(1, 0, 0, false)
-		r.race(1, 0, false)
+		r.race(1, 0, false, -1)
 	case 3: // same, both contending for lr.mu at once (waiter already chose ctx.Done)
 		r.lockStep(0, 0, 0, false)
 		r.lockStep(1, 0, 0, false)
-		r.race(1, 0, true)
+		r.race(1, 0, true, -1)
 	case 4: // two waiters, one cancelled while the holder unlocks: the token must reach the other
 		r.lockStep(0, 0, 0, false)
 		r.lockStep(1, 0, 0, false)
 		r.lockStep(2, 0, 0, false)
-		r.race(1, 0, true)
+		r.race(1, 0, true, -1)
 	case 5: // same, unsteered
 		r.lockStep(0, 0, 0, false)
 		r.lockStep(1, 0, 0, false)
 		r.lockStep(2, 0, 0, false)
-		r.race(2, 0, false)
+		r.race(2, 0, false, -1)
 	case 6: // context already cancelled: free lock is still taken, held lock returns the error
 		r.lockStep(0, 0, 0, true)
 		r.lockStep(1, 0, 0, true)
@@ -662,6 +778,17 @@ func (r *c15Run) directed(id int) {
 			r.unlockStep(1)
 			r.lockStep(2, 0, 0, true)
 		}
+	case 12, 13:
+		// a newcomer has enqueued itself but is not yet receiving while the only parked waiter
+		// is cancelled and the holder unlocks: the token goes into the buffer and must still be
+		// there for the newcomer whatever the cancelled waiter does
+		r.lockStep(0, 0, 0, false)
+		r.lockStep(1, 0, 0, false)
+		if r.be.APIs == 1 {
+			r.race(1, 0, id == 12, 2)
+		} else {
+			r.race(1, 0, id == 12, -1)
+		}
 	}
 }
 
@@ -678,7 +805,11 @@ func (r *c15Run) generated(steps int) {
 			if u < 0 {
 				continue
 			}
-			r.race(c, u, r.rng.Intn(2) == 0)
+			newcomer := -1
+			if r.be.APIs == 1 && r.rng.Intn(3) == 0 {
+				newcomer = r.pickIdle()
+			}
+			r.race(c, u, r.rng.Intn(2) == 0, newcomer)
 		case x < 45: // two or three arbitrary actions at once
 			k := 2 + r.rng.Intn(2)
 			perm := r.rng.Perm(len(r.ths))
